@@ -1869,6 +1869,16 @@ def check_operators(case, tier="quick"):
         if scalar_in or ish == ():
             attempt("argnum=1: deriv", lambda: autograd.deriv(F2b, 1)(a0, x), m * J)
         attempt("argnum=1: forward-over-reverse", lambda: autograd.make_jvp(autograd.grad(sc2, 1), 1)(a0, x)(v)[1], m * T(Hs, v, nin))
+        # negative argnum counts from the end of the positional arguments actually passed (Python indexing), on a function
+        # that has further defaulted parameters which must keep their defaults
+        attempt("argnum=-1: grad", lambda: autograd.grad(sc2, -1)(a0, x), m * gJ)
+        attempt("argnum=-1: value_and_grad value", lambda: autograd.value_and_grad(sc2, -1)(a0, x)[0], m * onp.sum(y0 * g))
+        attempt("argnum=-1: jacobian", lambda: autograd.jacobian(F2b, -1)(a0, x), m * Jx)
+        attempt("argnum=-1: make_jvp", lambda: autograd.make_jvp(F2b, -1)(a0, x)(v)[1], m * T(J, v, nin))
+        attempt("argnum=-1: make_jvp value", lambda: autograd.make_jvp(F2b, -1)(a0, x)(v)[0], m * y0)
+        attempt("argnum=-1: elementwise_grad", lambda: autograd.elementwise_grad(F2b, -1)(a0, x), m * (onp.sum(J, axis=tuple(range(no))) if no else J))
+        attempt("argnum=-2 of three: grad", lambda: autograd.grad(lambda a, xx, b: sc(xx) * (1.0 + anp.sum(a * a)) * b, -2)(a0, x, 2.0), 2.0 * m * gJ)
+        attempt("argnum=(-1,): grad", lambda: autograd.grad(sc2, (-1,))(a0, x)[0], m * gJ)
         # values handed back by an operator (function value, aux) stay differentiable for an ENCLOSING differentiation
         attempt("nested: aux of grad_and_aux is differentiable outside", lambda: autograd.grad(lambda x_: anp.sum(autograd.grad_and_aux(lambda z: (sc(z), F(z)))(x_)[1] * g))(x), gJ)
         attempt("nested: value of value_and_grad is differentiable outside", lambda: autograd.grad(lambda x_: autograd.value_and_grad(sc)(x_)[0])(x), gJ)
@@ -2117,7 +2127,12 @@ def check_second_order(cfg, tier="quick"):
                 break
             v_, model = prove_eqs(p, eqs, [], out, opts, groups=groups)
             if v_ == "unknown":
-                out.status, out.detail = "inconclusive", "solver unknown on %s" % name
+                bad = _second_probe(cfg)
+                if bad:
+                    out.status, out.detail = "violation", "[float64 probe; solver unknown on %s] %s" % (name, bad[0])
+                    out.cex = {"env": bad[1], "mode": "second", "claim": name, "info": bad[0]}
+                else:
+                    out.status, out.detail = "inconclusive", "solver unknown on %s" % name
                 break
             if v_ == "sat":
                 rep, info, env = replay_second(cfg, p, model or {}, name)
@@ -2212,6 +2227,36 @@ def replay_second(cfg, p, model, name, tol=2e-4):
     return abs(val - r["ref"]) > tol * sc * 10, "%s gives %.9g, second finite difference of NumPy's function gives %.9g" % (key, val, r["ref"]), dict(env)
 
 
+def _second_probe(cfg):
+    """float64 fallback when the solver cannot decide a second-order claim: at three random regular points every
+    available mode sequence must match the second finite difference of NumPy's function; reports only if the SAME mode
+    is off by more than 1% at all three points"""
+    rng = random.Random(SEED + 23)
+    names = {"ff": "jvp-of-jvp", "rf": "vjp-of-jvp", "fr": "jvp-of-vjp", "rr": "vjp-of-vjp"}
+    off = {k_: 0 for k_ in names}
+    seen = 0
+    last = None
+    for _ in range(8):
+        env = _Default({}, rng)
+        try:
+            r = _second_floats(cfg, env)
+        except Exception:
+            continue
+        if not r["smooth"]:
+            continue
+        seen += 1
+        for k_ in names:
+            v = r.get(k_)
+            if v is not None and abs(v - r["ref"]) > 1e-2 * max(1.0, abs(v), abs(r["ref"])):
+                off[k_] += 1
+                last = ("%s gives %.9g, second finite difference of NumPy's function gives %.9g" % (names[k_], v, r["ref"]), {n_: float(x_) for n_, x_ in dict(env).items()})
+        if seen == 3:
+            break
+    if seen == 3 and any(c == 3 for c in off.values()):
+        return last
+    return None
+
+
 def _validate_second(cfg):
     rng = _rng(cfg)
     env = _Default({}, rng)
@@ -2233,7 +2278,7 @@ def vspace_cases(tier):
     from .enga import R, Cx, SC, CSC
 
     cases = [("real scalar", SC), ("complex scalar", CSC), ("0-d real", R()), ("real (2,)", R(2)), ("real (2,1,2)", R(2, 1, 2)), ("real size-0 (0,)", R(0)), ("real size-0 (2,0)", R(2, 0)),
-             ("complex (2,)", Cx(2)), ("complex 0-d", Cx()), ("complex (1,2)", Cx(1, 2)), ("complex size-0", Cx(0)),
+             ("complex (2,)", Cx(2)), ("complex 0-d", Cx()), ("complex (1,2)", Cx(1, 2)), ("complex size-0", Cx(0)), ("complex (2,3)", Cx(2, 3)), ("real (3,2)", R(3, 2)),
              ("tuple (array, scalar)", (R(2), SC)), ("list [array, complex array]", [R(2), Cx(2)]), ("dict {a: array, b: scalar}", {"a": R(2), "b": SC}),
              ("nested tuple in list in dict", {"p": [(R(1), SC), R(2)], "q": CSC}), ("empty tuple", ()), ("tuple with empty list", (R(1), [])), ("empty dict", {})]
     if tier == "thorough":
@@ -2294,6 +2339,7 @@ def check_vspace(case, tier="quick"):
     def body():
         x, y, z = (_build_sym(spec, n_, None) for n_ in ("x", "y", "z"))
         y = _reverse_dicts(y)  # same keys, different insertion order: vector-space operations pair leaves by KEY
+        y = _fortran_leaves(y)  # same values, Fortran memory layout: operations pair entries by INDEX, not by memory position
         a, b = sym("a"), sym("b")
         vs, zero, E = axioms(x, y, z, a, b)
         basis = list(vs.standard_basis())
@@ -2315,7 +2361,7 @@ def check_vspace(case, tier="quick"):
         rng = random.Random(SEED + 5)
         envs = [_Default({}, rng) for _ in range(3)]
         x, y, z = (_build_float(spec, "x", e_) for e_ in envs)
-        y = _reverse_dicts(y)
+        y = _fortran_leaves(_reverse_dicts(y))
         bad = []
         try:
             with warnings.catch_warnings():
@@ -2427,6 +2473,16 @@ def _ref_inner(x, y):
             a_, b_ = complex(a_), complex(b_)
             tot = tot + a_.real * b_.real + a_.imag * b_.imag
     return tot
+
+
+def _fortran_leaves(v):
+    if isinstance(v, dict):
+        return {k_: _fortran_leaves(e) for k_, e in v.items()}
+    if isinstance(v, (tuple, list)):
+        return type(v)(_fortran_leaves(e) for e in v)
+    if isinstance(v, onp.ndarray) and v.ndim >= 2:
+        return onp.asfortranarray(v)
+    return v
 
 
 def _reverse_dicts(v):
@@ -2541,6 +2597,15 @@ def zero_cases(tier):
     c.append(("dict argument, piecewise constant", lambda np, d: np.floor(d["a"]), {"a": R(2), "b": R(1)}))
     c.append(("value-dependent branch to constants", lambda np, x: 1.0 if x[0] > x[1] else 2.0, R(2)))
     c.append(("zeros_like / ones_like", lambda np, x: np.zeros_like(x) + np.ones_like(x), R(2)))
+    # an inner derivative whose value depends on the OUTER argument only through two-argument non-differentiable functions
+    # (operands of different nesting levels in one call)
+    def _inner(np, body, at):
+        import autograd
+
+        return autograd.elementwise_grad(body)(at) if np is not onp else None
+
+    c.append(("nested: d/dy [y * logical_and(y, x)] as a function of x", lambda np, x: (_inner(np, lambda y: y * np.logical_and(y, x), onp.array([1.5, 2.5])) if np is not onp else onp.ones(2)), R(2)))
+    c.append(("nested: d/dy [y * (floor_divide(y, |x|+1) )] as a function of x", lambda np, x: (_inner(np, lambda y: y * np.floor_divide(y, np.abs(x) + 1.0) * 0.0 + np.logical_or(y, x) * y, onp.array([7.5, 9.5])) if np is not onp else onp.ones(2)), R(2)))
     return c
 
 
